@@ -2912,7 +2912,11 @@ func getDefault(n *node) int {
 	return -1
 }
 
-func isBinType(v reflect.Value) bool { return v.IsValid() && v.Kind() == reflect.Ptr && v.IsNil() }
+// isBinType returns true if v is the export of a type: a nil pointer value. An addressable value
+// is the export of a variable, which may hold a nil pointer.
+func isBinType(v reflect.Value) bool {
+	return v.IsValid() && v.Kind() == reflect.Ptr && v.IsNil() && !v.CanAddr()
+}
 
 // isType returns true if node refers to a type definition, false otherwise.
 func (n *node) isType(sc *scope) bool {
